@@ -29,7 +29,7 @@ def excluded(fd, n):
 
 def gen_acc_pkg(rng, name, p_type_dir=0.35, p_exported_dir=0.0, **opts):
     """a ctorgen package with get/set directives on unexported fields and type-level directives"""
-    base = dict(getset_dirs=True, p_under=0.012, p_tag=0.035, p_shadow=0.06, p_def=0.15, p_new=0.15)
+    base = dict(getset_dirs=True, p_under=0.012, p_tag=0.035, p_shadow=0.2, p_def=0.15, p_new=0.15)
     base.update(opts)
     pkg = ctorgen.gen_struct_pkg(rng, name, **base)
     for sd in pkg["structs"]:
@@ -49,49 +49,136 @@ def pascal(s):
     return ctorgen._go_pascal(s)
 
 
+def struct_occurrences(pkg, sd):
+    """[(path tuple, struct decl, type args)] of the struct itself and every embedded struct of its closure"""
+    self_args = [("param", n) for n in ctorgen.tparam_names(sd)]
+    res = [((), sd, self_args)]
+    for o in ctorgen.occurrences(pkg, sd, self_args):
+        if o[3] and o[4]:
+            t = o[2][1] if o[2][0] == "ptr" else o[2]
+            res.append((o[0], ctorgen.struct_of(pkg, o[2]), t[3]))
+    return res
+
+
 def precheck(pkg, sd, selected):
-    """python twin of c03_guard (steering only): 'in' | 'out' (compiles, outside the guard) | 'bad'"""
+    """python twin of c03_guard + accessors_visible (steering only): 'in' | 'out' (compiles, outside the guard) | 'bad'"""
     cls = c02.precheck(pkg, sd)
     if cls == "bad":
         return "bad"
     res = "in" if cls == "in" else "out"
-    occ = ctorgen.occurrences(pkg, sd, [("param", n) for n in ctorgen.tparam_names(sd)])
-    own = [n for fd in sd["fields"] for n in fd["names"]]
+    self_args = [("param", n) for n in ctorgen.tparam_names(sd)]
+    occ = ctorgen.occurrences(pkg, sd, self_args)
     embnames = set(o[1] for o in occ if o[3] and o[4])
     for fd in sd["fields"]:
         for n in fd["names"]:
             if excluded(fd, n):
                 res = "out"
-    for o in occ:
-        if len(o[0]) > 1 and o[1] in own:
-            res = "out"
-        if o[3] and o[4] and len(o[0]) == 1 and False:
-            pass
-        if not (o[3] and o[4]) and o[1] in embnames:
-            res = "out"
-        if o[3] and o[4] and o[1] in own:
-            res = "out"
-    # member names: accessor names must be unique among all member names of the closure
-    members = [o[1] for o in occ]
-    accs = []
-    structs = [((), sd)] + [(o[0], ctorgen.struct_of(pkg, o[2])) for o in occ if o[3] and o[4]]
-    for _, s in structs:
-        if s["pkg"] != "" or s["name"] not in selected:
-            continue
-        for fd in s["fields"]:
+    # K_getset_once_shadow: no occurrence with an own field's name PRECEDES the field in depth-first declaration order
+    seen = set()
+    for fd in sd["fields"]:
+        if not fd["names"]:
+            seen.add(ctorgen.short_name(fd["ty"]))
+            sub = ctorgen.struct_of(pkg, fd["ty"])
+            if sub is not None:
+                t = fd["ty"][1] if fd["ty"][0] == "ptr" else fd["ty"]
+                for o in ctorgen.occurrences(pkg, sub, t[3]):
+                    seen.add(o[1])
+        else:
             for n in fd["names"]:
-                if not n[:1].isupper() and not excluded(fd, n):
-                    p = pascal(n)
-                    if p == "" or not ("a" <= n[:1] <= "z"):
-                        return "bad"
-                    accs += [p, "Set" + p]
-    allnames = members + accs
-    for a in accs:
-        if allnames.count(a) != 1:
-            # a repeated struct occurrence repeats its accessors: fine for Go only when ambiguous names are never used;
-            # keep such shapes out of the stream
-            return "bad"
+                if n in seen:
+                    res = "out"
+    for o in occ:
+        if not (o[3] and o[4]) and o[1] in embnames:
+            res = "out"             # a plain field with the name of an embedded struct
+    # accessors of the closure must be visible on *T: not hidden by a field, unambiguous, and an accessor that is
+    # shadowed by a shallower one must have the same type (else: duplicate method, K_getset_shadow_type_conflict)
+    fields_at = {}
+    for o in occ:
+        fields_at.setdefault(o[1], []).append(len(o[0]) - 1)
+    methods = {}
+    for path, s, args in struct_occurrences(pkg, sd):
+        if s is None or s["pkg"] != "" or s["name"] not in selected:
+            continue
+        for n, t, emb in ctorgen.struct_fields(s, args):
+            if emb or n[:1].isupper():
+                continue
+            fd = next(f for f in s["fields"] if n in f["names"])
+            if excluded(fd, n):
+                continue
+            p = pascal(n)
+            if p == "" or not ("a" <= n[:1] <= "z"):
+                return "bad"
+            for m in (p, "Set" + p):
+                methods.setdefault(m, []).append((len(path), ctorgen.type_string(t)))
+    for m, lst in methods.items():
+        dmin = min(d for d, _ in lst)
+        if m in fields_at and min(fields_at[m]) <= dmin:
+            return "bad"            # K_getset_field_hides_accessor
+        if sum(1 for d, _ in lst if d == dmin) > 1:
+            return "bad"            # ambiguous promoted accessor
+        tmin = next(t for d, t in lst if d == dmin)
+        if any(t != tmin for _, t in lst):
+            return "bad"            # K_getset_shadow_type_conflict: does not compile
     return res
+
+
+def complete_order(pkg, order):
+    """every selected struct comes after the selected structs it embeds (transitively)"""
+    pos = {n: i for i, n in enumerate(order)}
+    for sd in pkg["structs"]:
+        if sd["name"] not in pos:
+            continue
+        for path, s, args in struct_occurrences(pkg, sd)[1:]:
+            if s is not None and s["pkg"] == "" and s["name"] in pos and pos[s["name"]] > pos[sd["name"]]:
+                return False
+    return True
+
+
+# ------------------------------------------------------------------ grouped type declarations
+def render_go(pkg, modname):
+    """ctorgen.render_go, with the structs named in pkg["groups"] rendered inside one `type ( ... )` declaration each;
+    the group's doc comment is the GenDecl doc of every struct in it (sd["doc"]), the structs carry no own comment"""
+    files = ctorgen.render_go(pkg, modname)
+    groups = pkg.get("groups") or []
+    if not groups:
+        return files
+    (fname, text), = files.items()
+    for g in groups:
+        sds = [sd for sd in pkg["structs"] if sd["name"] in g["names"]]
+        block = list(g["comment"]) + ["type ("]
+        for sd in sds:
+            body = ctorgen.render_struct(sd).rstrip("\n").split("\n")
+            assert body[0].startswith("type "), body[0]
+            body[0] = body[0][len("type "):]
+            block += ["\t" + l if l else l for l in body]
+        block.append(")")
+        first = True
+        for sd in sds:
+            piece = ctorgen.render_struct(sd)
+            assert piece in text, sd["name"]
+            text = text.replace(piece, "\n".join(block) + "\n" if first else "", 1)
+            first = False
+    import re as _re
+    text = _re.sub(r"\n{3,}", "\n\n", text)
+    return {fname: text}
+
+
+def add_groups(rng, pkg, p=0.12):
+    """with probability p put 2..3 consecutive comment-less, non-generic structs into one grouped declaration, with
+    a type-level directive on the group half of the time"""
+    if rng.random() >= p:
+        return
+    cands = [sd for sd in pkg["structs"] if not sd.get("comment") and not sd["tparams"]]
+    if len(cands) < 2:
+        return
+    k = rng.choice([2, 2, 3])
+    start = rng.randrange(0, max(1, len(cands) - k + 1))
+    sds = cands[start:start + k]
+    comment = list(rng.choice(TYPE_DIRS)) if rng.random() < 0.6 else []
+    for sd in sds:
+        sd["comment"] = []
+        sd["doc"] = ctorgen.doc_text(comment)
+    pkg["groups"] = [{"names": [sd["name"] for sd in sds], "comment": comment}]
 
 
 def run_ctoracc(accbin, mod, patterns=("./...",)):
@@ -134,7 +221,7 @@ def coq_row(r):
 
 def spec_json(pkg):
     """the part of a package spec that goes into replay files"""
-    return {"name": pkg["name"], "extra_decls": pkg["extra_decls"],
+    return {"name": pkg["name"], "extra_decls": pkg["extra_decls"], "groups": pkg.get("groups") or [],
             "structs": [{k: x for k, x in s.items() if not k.startswith("_")} for s in pkg["structs"]]}
 
 
